@@ -369,6 +369,7 @@ func c06(c *Ctx) {
 			}
 		})
 	}
+	errorsExamined(c, "R7.errors-examined", "content store and gossip", []string{"storage/pebble", "portalwire"}, "(*storage/pebble.ContentStorage).", "storage/pebble.NewStorage", ".GossipAndReturnPeers", ".processPing", ".processPongPayload")
 }
 
 func derivesFromBoth(v ssa.Value, fn *ssa.Function) bool {
@@ -677,6 +678,7 @@ func c17(c *Ctx) {
 		}
 	}
 	r.Check(okGet, "R4.get", core.FuncName(m.get), p.Pos(m.get.Pos()), "returns only bytes read from the database", "Get can return bytes that were not read from the database (cache layer or other source)")
+	errorsExamined(c, "R5.errors-examined", "content store", []string{"storage/pebble"}, "(*storage/pebble.ContentStorage).", "storage/pebble.NewStorage")
 }
 
 // sameLoopAsHelper: block b lies in a loop of fn that also contains a call of helper.
